@@ -3,7 +3,7 @@
 From Coq Require Import String ZArith QArith Qround Qabs List Bool.
 From RV Require Import Base.PyNum Timing.Snapper Timing.Snap Timing.TimingMap Timing.Reseat Timing.Integrate
   Formats.SMText Formats.SM Formats.SMSpec Formats.SMWriteDom Generated.Tables Proofs.SMWitness Proofs.SMProofs Proofs.SMWriteProofs
-  Proofs.SMWriteWholeChart Proofs.SMWriteWholeFile Proofs.SMWriteWholeEx Formats.SMReadDom Proofs.SMRoundTrip.
+  Proofs.SMWriteWholeChart Proofs.SMWriteWholeFile Proofs.SMWriteWholeEx Formats.SMReadDom Proofs.SMRoundTrip Proofs.SMRoundTripEx Proofs.SMWriteReadDom.
 Import ListNotations.
 Open Scope Q_scope.
 
@@ -160,18 +160,18 @@ Theorem C03_sm_write_tempo_cap : forall s : smset, c03_cap_domb s = true ->
 Proof. exact sm_write_tempo_cap. Qed.
 
 (* ---- READ-BACK (C03 o C02): SMMapSet.read of the written text gives the mapset back.  For every mapset of the exact
-   domain and every exact rendering txt of its written tokens that lies in the reader's decidable domain c02_domb
-   (Formats/SMReadDom.v, THE domain of C02_sm_read_denotes: reader dialect, header items, rows a multiple of 4, tempo
-   beats distinct on the 1/48 grid), the read succeeds and returns the same charts in the same order: type, description,
-   difficulty, meter equal, radar equal as numbers, and per kind the same objects (a permutation; columns equal, times and
-   lengths equal as numbers), and the same #OFFSET.
-   PARTIAL in one respect only: the hypothesis `c02_domb txt = true` is NOT derived from c03_domb (missing lemma, named
-   in docs/C03.md: written_text_in_reader_domain — every exact rendering of the tokens of a mapset in c03_domb whose tempo
-   beats are multiples of 1/4 satisfies dialect2, hdr_ok and c02_dom; it needs the row counts d_rows and the tempo rows
-   d_tempo of the denotation, which sm_write_denotes does not expose, and the dialect of the raw text with its comment
-   lines, for which SMWriteWholeFile.sm_write_text_shape gives the concrete shape).  It is decidable on the text, holds
-   on both example texts below (C03_read_back_examples), and its writer-dependent part (dialect2, hdr_ok, rows a multiple
-   of 4) is evaluated by the runner on every text the implementation wrote for a mapset in c03_domb (RunC03.readback_dom). *)
+   domain whose tempo changes lie at beats of the reader's 1/48 grid (readback_guard, decidable on the mapset) and every
+   exact rendering txt of its written tokens, the read succeeds and returns the same charts in the same order: type,
+   description, difficulty, meter equal, radar equal as numbers, and per kind the same objects (a permutation; columns
+   equal, times and lengths equal as numbers), and the same #OFFSET  (C03_sm_write_read_back).
+   The step that was missing is C03_written_text_in_reader_domain: the written text lies in the reader's decidable domain
+   c02_domb (Formats/SMReadDom.v, THE domain of C02_sm_read_denotes: no ';' in a comment, every ';'-piece in the reader's
+   dialect, header items in order with numbers that parse, rows a multiple of 4, tempo beats distinct on the 1/48 grid).
+   C03_sm_write_read_back_partial (the same with c02_domb txt as a hypothesis, no guard) is kept for its importers.
+   The guard is what C02's reading theorem covers, not a loss of the implementation: C03_read_back_guard_not_necessary
+   is a mapset with a tempo change at beat 1/5, outside the guard, that the reader (model and /repo) reads back
+   unchanged.  What the pair does lose is text fields outside tame_str (part of c03_domb):
+   C03_read_back_refuted_semicolon_title, title "a;b" comes back as "a" (charts unchanged). *)
 Theorem C03_grid48_in_table : grid48_in_table (k_tbl live_conf) = true.
 Proof. vm_compute. reflexivity. Qed.
 
@@ -182,6 +182,51 @@ Theorem C03_sm_write_read_back_partial : forall s : smset, c03_domb s = true ->
                  /\ Forall2 chart_back (s_maps s') (s_maps s)
                  /\ match s_offset s', s_offset s with Some a, Some b => a == b | _, _ => False end.
 Proof. exact (sm_write_read_back_gen C03_grid48_in_table). Qed.
+
+Theorem C03_written_text_in_reader_domain : forall s : smset, c03_domb s = true -> readback_guard s = true ->
+  exists toks, sm_write live_conf current s = Some toks /\ forall txt, match_toks 0 toks txt = true -> c02_domb txt = true.
+Proof. exact written_text_in_reader_domain. Qed.
+
+Theorem C03_sm_write_read_back : forall s : smset, c03_domb s = true -> readback_guard s = true ->
+  exists toks, sm_write live_conf current s = Some toks /\
+    forall txt, match_toks 0 toks txt = true ->
+      exists s', sm_read live_conf current txt = Some s'
+                 /\ Forall2 chart_back (s_maps s') (s_maps s)
+                 /\ match s_offset s', s_offset s with Some a, Some b => a == b | _, _ => False end.
+Proof. exact (sm_write_read_back C03_grid48_in_table). Qed.
+
+(* the guard, spelled out: tempo beats (the integral of bpm/60000 at each tempo row's time) on the 1/48 grid, >= 0, distinct *)
+Theorem C03_readback_guard_meaning : forall s : smset, readback_guard s =
+  match s_maps s with
+  | [] => false
+  | c0 :: _ =>
+      match tempo_script_of live_conf (c_bpms c0) with
+      | None => false
+      | Some (init, l) =>
+          let bs := map (fun r : Q * Q * Q => spec_beat init l (fst (fst r))) (c_bpms c0) in
+          forallb (fun b => on_grid48 b && Qle_bool 0 b) bs && distinct_q bs
+      end
+  end.
+Proof. reflexivity. Qed.
+
+Theorem C03_read_back_refuted_semicolon_title :
+  c03_domb rb_semi_set = false /\ readback_guard rb_semi_set = true
+  /\ match sm_write live_conf current rb_semi_set with Some toks => match_toks 0 toks rb_semi_txt | None => false end = true
+  /\ c02_domb rb_semi_txt = false
+  /\ exists s', sm_read live_conf current rb_semi_txt = Some s'
+       /\ nth 0 (s_txt rb_semi_set) [] = tx "a;b" /\ nth 0 (s_txt s') [] = tx "a"
+       /\ map c_hits (s_maps s') = map c_hits (s_maps rb_semi_set).
+Proof. exact read_back_refuted_semicolon_title. Qed.
+
+Example C03_read_back_guard_not_necessary :
+  c03_domb rb_fifth_set = true /\ readback_guard rb_fifth_set = false
+  /\ match sm_write live_conf current rb_fifth_set with Some toks => match_toks 0 toks rb_fifth_txt | None => false end = true
+  /\ c02_domb rb_fifth_txt = false
+  /\ exists s', sm_read live_conf current rb_fifth_txt = Some s' /\ map c_hits (s_maps s') = map c_hits (s_maps rb_fifth_set).
+Proof. exact read_back_guard_not_necessary. Qed.
+
+Example C03_read_back_guard_examples : readback_guard c03_ex_set = true /\ c03_domb c03_ex_set = true.
+Proof. exact read_back_guard_examples. Qed.
 
 Example C03_read_back_examples :
   c02_domb c03_ex_txt = true /\ c02_domb c03_ex_cap_txt = true /\ c02_domb w_ok_txt = true
